@@ -254,6 +254,7 @@ func (c *Ctx) Sub(name string, f func(s *Sub)) {
 	}
 	c.T.Run(name, func(t *testing.T) {
 		s := &Sub{C: c, Name: name, T: t}
+		defer c.subTime(name, time.Now())
 		defer func() {
 			if r := recover(); r != nil {
 				if _, ok := r.(stopSub); ok {
@@ -265,6 +266,16 @@ func (c *Ctx) Sub(name string, f func(s *Sub)) {
 		}()
 		f(s)
 	})
+}
+
+// subTime appends how long a sub-check took to the file named by VERIF_SUBTIMES (a development aid).
+func (c *Ctx) subTime(name string, t0 time.Time) {
+	if p := os.Getenv("VERIF_SUBTIMES"); p != "" {
+		if f, err := os.OpenFile(p, os.O_APPEND|os.O_CREATE|os.O_WRONLY, 0o644); err == nil {
+			fmt.Fprintf(f, "%s shard %d %-40s %8.2fs (ended at %.1fs)\n", c.ID, c.Shard, name, time.Since(t0).Seconds(), time.Since(c.start).Seconds())
+			f.Close()
+		}
+	}
 }
 
 func (c *Ctx) rapidSeed(name string) uint64 {
@@ -282,6 +293,7 @@ func (c *Ctx) Rapid(name string, checks int, prop func(rt *rapid.T, s *Sub)) {
 		return
 	}
 	c.T.Run(name, func(t *testing.T) {
+		defer c.subTime(name, time.Now())
 		flag.Set("rapid.checks", strconv.Itoa(checks))
 		flag.Set("rapid.seed", strconv.FormatUint(c.rapidSeed(name), 10))
 		flag.Set("rapid.nofailfile", "true")
